@@ -18,6 +18,8 @@
 #include <benum/benum.hpp>
 
 #include <osmium/io/any_input.hpp>
+#include <osmium/io/detail/input_format.hpp>
+#include <osmium/io/detail/queue_util.hpp>
 #include <osmium/io/reader.hpp>
 #include <osmium/osm.hpp>
 
@@ -36,6 +38,10 @@
 #ifndef C02_DATA
 # define C02_DATA "/verif/build/C02-data"
 #endif
+#ifndef C02_PYTHON
+# define C02_PYTHON "python3"
+#endif
+static std::string python() { const char* e = getenv("C02_PYTHON"); return e && *e ? e : C02_PYTHON; }
 
 using benum::Args;
 static benum::Counters C;
@@ -150,26 +156,66 @@ static std::string demangle(const char* n) {
     return r;
 }
 
+static void dump_buffer(std::string& out, const osmium::memory::Buffer& buffer) {
+    for (const auto& item : buffer) {
+        switch (item.type()) {
+            case osmium::item_type::node: case osmium::item_type::way: case osmium::item_type::relation:
+                dump_object(out, static_cast<const osmium::OSMObject&>(item)); break;
+            case osmium::item_type::changeset:
+                dump_changeset(out, static_cast<const osmium::Changeset&>(item)); break;
+            default:
+                out += "?item-type-" + std::to_string(static_cast<int>(item.type())) + "\n";
+        }
+    }
+}
+
+// the complete pipeline: osmium::io::Reader (read thread, parser thread, pool)
 static ReadResult read_all(const osmium::io::File& file) {
     ReadResult r;
     try {
         osmium::io::Reader reader{file, osmium::osm_entity_bits::all};
         const osmium::io::Header h = reader.header();
         dump_header(r.dump, h);
-        while (osmium::memory::Buffer buffer = reader.read()) {
-            for (const auto& item : buffer) {
-                switch (item.type()) {
-                    case osmium::item_type::node: case osmium::item_type::way: case osmium::item_type::relation:
-                        dump_object(r.dump, static_cast<const osmium::OSMObject&>(item)); break;
-                    case osmium::item_type::changeset:
-                        dump_changeset(r.dump, static_cast<const osmium::Changeset&>(item)); break;
-                    default:
-                        r.dump += "?item-type-" + std::to_string(static_cast<int>(item.type())) + "\n";
-                }
-            }
-        }
+        while (osmium::memory::Buffer buffer = reader.read()) dump_buffer(r.dump, buffer);
         reader.close();
     } catch (const std::exception& e) {
+        r.threw = true;
+        r.what = demangle(typeid(e).name()) + ": " + e.what();
+    }
+    return r;
+}
+
+// the format's parser driven directly in this thread (what the Reader's parser thread runs): the whole file is put
+// into the input queue as one string, Parser::parse() is called, header promise and output queue are read afterwards
+static ReadResult parse_direct(const std::string& data, const std::string& format) {
+    namespace iod = osmium::io::detail;
+    ReadResult r;
+    try {
+        const osmium::io::File file{data.data(), data.size(), format};
+        iod::future_string_queue_type inq{0, "c02_in"};
+        iod::future_buffer_queue_type outq{0, "c02_out"};
+        std::promise<osmium::io::Header> header_promise;
+        std::future<osmium::io::Header> header_future = header_promise.get_future();
+        std::atomic<std::size_t> offset{0};
+        iod::parser_arguments args{osmium::thread::Pool::default_instance(), -1, inq, outq, header_promise, &offset,
+                                   osmium::osm_entity_bits::all, osmium::io::read_meta::yes, osmium::io::buffers_type::any, false};
+        if (!data.empty()) iod::add_to_queue(inq, std::string{data});
+        iod::add_end_of_data_to_queue(inq);
+        setenv("OSMIUM_USE_POOL_THREADS_FOR_PBF_PARSING", "false", 1);
+        {
+            auto parser = iod::ParserFactory::instance().get_creator_function(file)(args);
+            parser->parse();
+        }
+        unsetenv("OSMIUM_USE_POOL_THREADS_FOR_PBF_PARSING");
+        const osmium::io::Header h = header_future.get();
+        dump_header(r.dump, h);
+        iod::queue_wrapper<osmium::memory::Buffer> q{outq};
+        while (!q.has_reached_end_of_data()) {
+            osmium::memory::Buffer b = q.pop();
+            if (b) dump_buffer(r.dump, b);
+        }
+    } catch (const std::exception& e) {
+        unsetenv("OSMIUM_USE_POOL_THREADS_FOR_PBF_PARSING");
         r.threw = true;
         r.what = demangle(typeid(e).name()) + ": " + e.what();
     }
@@ -290,6 +336,7 @@ static std::string diff_kind(const std::string& expected, const std::string& got
 }
 
 struct Outcome { std::string kind, detail; };
+static bool g_buffer_via_reader = false;   // --buffer-reader: second reading through a Reader on the memory buffer instead of the direct parser
 
 // reads the case both ways and compares with the expectation
 static Outcome evaluate(const Case& c) {
@@ -302,7 +349,7 @@ static Outcome evaluate(const Case& c) {
         fclose(f);
     }
     const ReadResult rf = read_all(osmium::io::File{path});
-    const ReadResult rb = read_all(osmium::io::File{c.data.data(), c.data.size(), c.suffix});
+    const ReadResult rb = g_buffer_via_reader ? read_all(osmium::io::File{c.data.data(), c.data.size(), c.suffix}) : parse_direct(c.data, c.suffix);
     std::string df, db;
     const std::string kf = rf.threw ? "rejected" : diff_kind(c.expected, rf.dump, df);
     const std::string kb = rb.threw ? "rejected" : diff_kind(c.expected, rb.dump, db);
@@ -320,7 +367,7 @@ static Proc g_server;
 
 static void server_start() {
     if (g_server.pid > 0) return;
-    if (!g_server.start({"python3", "-B", std::string(C02_DIR) + "/gen.py", "serve"}, true)) die("cannot start gen.py serve");
+    if (!g_server.start({python(), "-B", std::string(C02_DIR) + "/gen.py", "serve"}, true)) die("cannot start gen.py serve");
 }
 
 static std::string shorten_hex(const std::string& data) { return data.size() <= 96 ? benum::hex(data) : benum::hex(data.substr(0, 96)) + "...(" + std::to_string(data.size()) + " bytes)"; }
@@ -431,7 +478,7 @@ static int worker(const Args& a, const std::string& part, uint64_t skip) {
     benum::Sampler sampler(a.seed, 2, 997);
     g_sampler = &sampler;
     Proc gen;
-    if (!gen.start({"python3", "-B", std::string(C02_DIR) + "/gen.py", "enum", "--part", part, "--tier", a.thorough ? "thorough" : "quick",
+    if (!gen.start({python(), "-B", std::string(C02_DIR) + "/gen.py", "enum", "--part", part, "--tier", a.thorough ? "thorough" : "quick",
                     "--shard", std::to_string(a.shard) + "/" + std::to_string(a.nshards), "--skip", std::to_string(skip)}, false)) die("cannot start gen.py enum");
     Frame fr;
     bool complete = false;
@@ -547,17 +594,29 @@ int main(int argc, char** argv) {
     if (a.replay) {
         // a crash during replay must still print the class key: run in a child
         fflush(stdout);
+        const std::string errpath = "/dev/shm/h02-" + std::to_string(getpid()) + ".err";
         pid_t pid = fork();
-        if (pid == 0) { replay(a); fflush(stdout); _exit(0); }
+        if (pid == 0) {
+            int fd = open(errpath.c_str(), O_WRONLY | O_CREAT | O_TRUNC, 0600);
+            if (fd >= 0) { dup2(fd, 2); close(fd); }
+            replay(a); fflush(stdout); _exit(0);
+        }
         int status = 0; waitpid(pid, &status, 0);
+        const std::string err = benum::slurp(errpath);
+        unlink(errpath.c_str());
+        if (WIFEXITED(status) && WEXITSTATUS(status) == 2) { fputs(err.c_str(), stderr); return 2; }
         if (!(WIFEXITED(status) && WEXITSTATUS(status) == 0)) {
             std::string what = WIFSIGNALED(status) ? "signal:" + std::to_string(WTERMSIG(status)) : "exit:" + std::to_string(WEXITSTATUS(status));
             std::string fam = a.replay_spec.substr(0, a.replay_spec.find('|'));
-            benum::viol(fam + "/crash/" + benum::death_class(what, ""), "the reader died on case " + a.replay_spec, a.replay_spec);
+            benum::viol(fam + "/crash/" + benum::death_class(what, err), "the reader died on case " + a.replay_spec, a.replay_spec);
         }
         return 0;
     }
-    std::string part = a.rest.size() >= 2 && a.rest[0] == "--part" ? a.rest[1] : "";
+    std::string part;
+    for (size_t i = 0; i < a.rest.size(); ++i) {
+        if (a.rest[i] == "--part" && i + 1 < a.rest.size()) part = a.rest[++i];
+        else if (a.rest[i] == "--buffer-reader") g_buffer_via_reader = true;
+    }
     if (part.empty()) { fprintf(stderr, "usage: h02 --part pbf|o5m|xml|opl|tiny|agree\n"); return 2; }
     run_part(a, part);
     C.emit();
